@@ -29,7 +29,7 @@ pub fn check(tier: Tier, seed: u64) -> PropReport {
         "a contract panic is a rejected transaction (cw-multi-test commits storage only on success)".into(),
     ];
     let cases = match tier {
-        Tier::Quick => 600,
+        Tier::Quick => 4000,
         Tier::Thorough => 30_000,
     };
     let e = engine();
